@@ -16,9 +16,7 @@ Oracle scope
              and day carries across it, clipping to / end of February 1900;
              serials outside 1..2958465 and results outside that range;
              DATE years below 1900 (short-year rule is not in the statement)
-             and above 9999; DATEDIF/YEARFRAC with start after end; DATEDIF
-             M/Y where "complete months" is ambiguous (end day < start day
-             and the end is the last day of its month); 30/360 with a day of
+             and above 9999; DATEDIF/YEARFRAC with start after end; 30/360 with a day of
              month 29-31 or the last day of February; DATEDIF units MD/YM/YD;
              text dates; NOW/TODAY.  Counted under skipped_out_of_scope.
 """
@@ -124,8 +122,8 @@ LEVEL_NOTE = ('Trusted: xlmc/ref/dates1900.py (self-tested) and the 1900 '
               'system as quoted in the property.  Not judged: serial 60 and '
               'everything depending on the phantom 1900-02-29, DATE years '
               'below 1900, results outside 1..2958465, text dates, NOW/'
-              'TODAY, 30/360 with day-of-month 29-31, ambiguous complete-'
-              'month counts at month ends (skipped_out_of_scope in the '
+              'TODAY, 30/360 with day-of-month 29-31 '
+              '(skipped_out_of_scope in the '
               'evidence).  Pair functions only over the sampled date set.')
 
 _EPOCH_DT = datetime.datetime(1899, 12, 30)
